@@ -570,7 +570,7 @@ REGISTRY = {
     "C19": Spec("FFSM2.Props.C19", [], c19_run, level="other", explanation="Partial by nature: 'compiles under every switch/standard/compiler' and 'the shipped header equals the amalgamation' are facts about files and compilers. Executed here: -fsyntax-only of an API-instantiating TU under all 256 switch combinations + FFSM2_ENABLE_ALL (quick: g++ C++11 and clang++ C++20; thorough: 2 compilers x 4 standards); tools/join.py re-run on a scratch copy and byte-compared; a feature-free scenario run under 8 (thorough 16) feature subsets + STRUCTURE_REPORT/DEBUG_STATE_TYPE/DISABLE_TYPEINDEX whose projected traces must be identical and equal to the model's."),
     "C01": Spec("FFSM2.Props.C01", ["ids"], machine_run("C01"), extra=("FFSM2.Props.History",)),
     "C02": Spec("FFSM2.Props.C02", ["ids", "config"], machine_run("C02", ("random", "pingpong")), extra=("FFSM2.Props.History", "FFSM2.Props.OutcomeHistory")),
-    "C03": Spec("FFSM2.Props.C03", ["ids", "config"], machine_run("C03", ("random", "pingpong")), extra=("FFSM2.Props.History",)),
+    "C03": Spec("FFSM2.Props.C03", ["ids", "config"], machine_run("C03", ("random", "pingpong")), extra=("FFSM2.Props.History", "FFSM2.Props.VetoHistory")),
     "C04": Spec("FFSM2.Props.C04", ["config"], machine_run("C04", ("random", "pingpong")), extra=("FFSM2.Props.History",)),
     "C05": Spec("FFSM2.Props.C05", ["ids", "phases"], machine_run("C05"), extra=("FFSM2.Props.History", "FFSM2.Props.CycleHistory")),
     "C06": Spec("FFSM2.Props.C06", ["ids"], machine_run("C06"), extra=("FFSM2.Props.History",)),
